@@ -184,7 +184,7 @@ def gen_lookalike(rng):
     co = lambda nm, t: {'kind': 'const', 'id': ir.mk_id(nm), 'ty': t, 'value': '7'}
     user = lambda nm, t: rng.choice([st(nm, [t]), st(nm, [ir.special('Vec', t)]), al(nm, t), al(nm, ir.special('Option', t))])
     a, b, g = rng.sample(['A', 'B', 'G', 'M', 'Q', 'Zed'], 3)
-    shape = rng.choice(['param', 'param', 'special', 'special', 'own', 'alias', 'alias_idle', 'dup', 'harmless'])
+    shape = rng.choice(['param', 'param', 'special', 'special', 'own', 'alias', 'alias_idle', 'dup', 'harmless', 'reuse', 'twice'])
     if shape == 'param':        # struct a<T> { f: T, g: b }, item T uses a
         items = [st(a, [ir.simple('T'), ir.simple(b)], ['T']), st(b, []), user('T', ir.generic(a, [ir.special('U8')]))]
     elif shape == 'special':    # a { f: g<Vec<u8>> }, g<T>, an item named Vec that uses a
@@ -196,6 +196,12 @@ def gen_lookalike(rng):
         items = [al(a, ir.special('Vec', ir.simple('T')), ['T']), user('T', ir.generic(a, [ir.special('U8')]))]
     elif shape == 'alias_idle':  # alias generics that name no item: outside every class
         items = [al(a, ir.special('Vec', ir.simple('T')), ['T']), st(b, [ir.generic(a, [ir.simple(g)])]), st(g, [])]
+    elif shape == 'reuse':      # a name first met as an argument, then as a generic with arguments of its own: outside every class
+        items = [st(a, [ir.generic(g, [ir.simple(b)]), ir.generic(b, [ir.simple('Zz')])]), st(g, [ir.simple('T')], ['T']),
+                 st(b, [ir.simple('T')], ['T']), st('Zz', [])]
+    elif shape == 'twice':      # one typeshared generic used twice with different arguments: outside every class
+        items = [st(a, [ir.generic(g, [ir.simple(b)]), ir.special('Vec', ir.generic(g, [ir.simple('Zz')]))]), st(g, [ir.simple('T')], ['T']),
+                 st(b, []), user('Zz', ir.special('U8'))]
     elif shape == 'dup':        # a const named like the struct a field refers to
         items = [st(a, [ir.simple(b)]), st(b, []), co(b, ir.special('U32'))]
     else:                       # item named T / Vec present but nothing looks it up: outside every class
